@@ -37,9 +37,11 @@ class Ctx(object):
     def __init__(self):
         self.reset_run()
         self.engine = None
+        self.unroll = 0         # >0: free axes get this concrete size and sums are written out (witness search)
 
     def reset_run(self):
         self.loops = []         # symbolic loops executed at a generic index: (k, lo, hi)
+        self.ranges = {}        # generic index id -> its range condition
         self.counter = itertools.count()
         self.pc = []            # path condition (z3 Bool)
         self.facts = []         # background facts: ranges of generic indices, atom facts, axioms
@@ -61,6 +63,18 @@ class Ctx(object):
 
 
 CTX = Ctx()
+
+
+def rng(idx):
+    """range hypothesis of a tuple of generic indices"""
+    out = []
+    for i in idx:
+        r = CTX.ranges.get(i.get_id()) if hasattr(i, "get_id") else None
+        if r is not None:
+            out.append(r)
+    if not out:
+        return z3.BoolVal(True)
+    return z3.And(*out) if len(out) > 1 else out[0]
 
 
 def use(name):
@@ -743,8 +757,10 @@ class Axis(object):
         self.size = size
 
     def fresh_index(self, tag="i"):
+        """a generic index of this axis.  Its range 0 <= i < size is NOT asserted globally (the axis may be
+        empty on this path); users put rng(idx) in front of what they prove or assume."""
         i = CTX.fresh("%s_%s" % (tag, self.name), "int")
-        CTX.facts.append(z3.And(i >= 0, i < self.size.v))
+        CTX.ranges[i.get_id()] = z3.And(i >= 0, i < self.size.v)
         return i
 
     def __repr__(self):
@@ -912,11 +928,11 @@ class SArr(object):
         if self.sel is None or o.sel is None:
             a = self.sel or o.sel
             idx = self.generic("al")
-            if not CTX.engine.entails(bz(a(idx))):
+            if not CTX.engine.entails(z3.Implies(rng(idx), bz(a(idx)))):
                 raise Unsupported("elementwise operation on differently filtered arrays")
             return
         idx = self.generic("al")
-        if not CTX.engine.entails(bz(bz(self.sel(idx)) == bz(o.sel(idx)))):
+        if not CTX.engine.entails(z3.Implies(rng(idx), bz(bz(self.sel(idx)) == bz(o.sel(idx))))):
             raise Unsupported("elementwise operation on differently filtered arrays")
 
     def _elementwise(self, o, fn, dtype):
@@ -1217,7 +1233,7 @@ def _filter(a, cond):
     asel = a.sel
     if csel is not None and csel is not asel:
         idx = a.generic("al")
-        if not CTX.engine.entails(bz(bz(asel(idx) if asel else True) == bz(csel(idx)))):
+        if not CTX.engine.entails(z3.Implies(rng(idx), bz(bz(asel(idx) if asel else True) == bz(csel(idx))))):
             raise Unsupported("boolean index filtered differently from the array")
     sel = lambda idx: And(asel(idx) if asel else True, cg(idx).z)
     return SArr(a.axes, a._snapshot(), a.dtype, sel, a.mask, flat=True)
@@ -1280,7 +1296,7 @@ def sarr_setitem(a, key, value):
             idx = a.generic("al")
             want = And(a.sel_at(idx), cg(idx).z)
             have = vsel(idx) if vsel is not None else True
-            if not CTX.engine.entails(bz(bz(want) == bz(have))):
+            if not CTX.engine.entails(z3.Implies(rng(idx), bz(bz(want) == bz(have)))):
                 raise Unsupported("masked assignment from a differently filtered array")
             newv = lambda idx: _conv(a.dtype, vg(idx))
         else:
@@ -1360,6 +1376,16 @@ def sum_atom(axes, term_fn, integer=False):
     Congruence (R2): two sums over the same domain with pointwise equal summands are the same atom.
     R3: a sum of pointwise non-negative terms is non-negative.  Zero summand => 0."""
     eng = CTX.engine
+    if CTX.unroll and all(z3.is_int_value(z3.simplify(ax.size.v)) for ax in axes):
+        # concrete extents (witness search): the sum written out
+        sizes = [z3.simplify(ax.size.v).as_long() for ax in axes]
+        tot = toz(0, "int" if integer else "real")
+        for tup in itertools.product(*[range(n) for n in sizes]):
+            t = toz(term_fn(tuple(z3.IntVal(j) for j in tup)), "int" if integer else "real")
+            if not integer and z3.is_int(t):
+                t = z3.ToReal(t)
+            tot = tot + t
+        return tot
     idx = _fresh_idx(axes)
     t = term_fn(idx)
     t = toz(t, "int" if integer else "real")
@@ -1369,7 +1395,8 @@ def sum_atom(axes, term_fn, integer=False):
     if z3.is_int_value(ts) or z3.is_rational_value(ts):
         if ts.as_fraction() == 0 if z3.is_rational_value(ts) else ts.as_long() == 0:
             return toz(0, "int" if integer else "real")
-    if eng.entails(t == 0):
+    R = rng(idx)
+    if eng.entails(z3.Implies(R, t == 0)):
         return toz(0, "int" if integer else "real")
     for at in CTX.atoms:
         if at.kind == "sum" and len(at.axes) == len(axes) and all(a is b for a, b in zip(at.axes, axes)) and at.extra == integer:
@@ -1377,14 +1404,14 @@ def sum_atom(axes, term_fn, integer=False):
             t2 = toz(t2, "int" if integer else "real")
             if not integer and z3.is_int(t2):
                 t2 = z3.ToReal(t2)
-            if eng.entails(t == t2):
+            if eng.entails(z3.Implies(R, t == t2)):
                 return at.const
     c = CTX.fresh("sum", "int" if integer else "real")
     at = Atom("sum", tuple(axes), term_fn, c, extra=integer)
-    if eng.entails(t >= 0):
+    if eng.entails(z3.Implies(R, t >= 0)):
         at.nonneg = True
         CTX.facts.append(c >= 0)
-    elif eng.entails(t <= 0):
+    elif eng.entails(z3.Implies(R, t <= 0)):
         CTX.facts.append(c <= 0)
     CTX.atoms.append(at)
     # R1 linearity against existing atoms is established lazily by link_atoms() at proof time
@@ -1412,7 +1439,7 @@ def instantiate_atoms(idx_by_axes):
                     continue
                 at.linked.add(key)
                 t = toz(at.fn(idx), "int" if at.extra else "real")
-                out.append(at.const >= t)
+                out.append(z3.Implies(rng(idx), at.const >= t))
     return out
 
 
@@ -1432,7 +1459,7 @@ def fn_atom(name, arr, params=(), result_int=False):
             s2, e2 = at.fn(idx)
             s1 = sel(idx) if sel else True
             e1 = SNum.lift(_numof(g(idx)))
-            if eng.entails(bz(And(bz(bz(s1) == bz(s2)), Implies(s1, num_eq_term(e1, e2))))):
+            if eng.entails(z3.Implies(rng(idx), bz(And(bz(bz(s1) == bz(s2)), Implies(s1, num_eq_term(e1, e2)))))):
                 return at.const
     ck = CTX.fresh("fk_" + name, "int")
     cv = CTX.fresh("fv_" + name, "real")
